@@ -74,6 +74,23 @@ def _SC(nodes, edges):
     return S
 
 
+def _Hnp(rng, nodes, edges, cls):
+    """a network whose explicit edge ids are numpy integers / integer-valued floats (as from np.arange, matrix labels,
+    float-typed edge columns)"""
+    H = cls()
+    H.add_nodes_from(nodes)
+    k = len(edges)
+    ids = list(np.arange(k)) if rng.random() < 0.6 else [float(i) for i in range(k)]   # 0..k-1: the next automatic id must be k
+    for i, (_, ms) in zip(ids, edges):
+        if cls is xgi.DiHypergraph:
+            H.add_edge((ms[:1], ms[1:] or ms[:1]), idx=i)
+        elif cls is xgi.SimplicialComplex:
+            H.add_simplex(ms, idx=i)
+        else:
+            H.add_edge(ms, idx=i)
+    return H
+
+
 def _int_ids(edges):
     return all(isinstance(e, int) for e, _ in edges)
 
@@ -128,6 +145,14 @@ PROVENANCES = {
     "copy(SC)": lambda r, n, e: _SC(n, e).copy(),
     "copy(DH)": lambda r, n, e: _DH(r, n, e).copy(),
     "pickle": lambda r, n, e: pickle.loads(pickle.dumps(_H(n, e))),
+    "pickle(numpy ids)": lambda r, n, e: pickle.loads(pickle.dumps(_Hnp(r, n, e, xgi.Hypergraph))),
+    "deepcopy(numpy ids)": lambda r, n, e: copy.deepcopy(_Hnp(r, n, e, xgi.Hypergraph)),
+    "copy(numpy ids)": lambda r, n, e: _Hnp(r, n, e, xgi.Hypergraph).copy(),
+    "pickle(numpy ids, SC)": lambda r, n, e: pickle.loads(pickle.dumps(_Hnp(r, n, e, xgi.SimplicialComplex))),
+    "pickle(numpy ids, DH)": lambda r, n, e: pickle.loads(pickle.dumps(_Hnp(r, n, e, xgi.DiHypergraph))),
+    "deepcopy": lambda r, n, e: copy.deepcopy(_H(n, e)),
+    "deepcopy(SC)": lambda r, n, e: copy.deepcopy(_SC(n, e)),
+    "deepcopy(DH)": lambda r, n, e: copy.deepcopy(_DH(r, n, e)),
     "pickle(SC)": lambda r, n, e: pickle.loads(pickle.dumps(_SC(n, e))),
     "pickle(DH)": lambda r, n, e: pickle.loads(pickle.dumps(_DH(r, n, e))),
     "convert_labels_to_integers": lambda r, n, e: xgi.convert_labels_to_integers(_H(n, e)),
